@@ -501,3 +501,120 @@ func checkRSInstances(c *Ctx, r *Report) {
 		reportFold(r, c, "S-RSHIST", key, dfd.Pos(), bad)
 	}
 }
+
+// S-GFWHOLE: the field constructor and the field operations, folded
+func checkGFWhole(c *Ctx, r *Report) {
+	r.Rule("S-GFWHOLE", "NewGenericGF, folded from source for each of the six fields the library uses (primitive polynomial, size, generator base), returns an object whose exp and log tables are exactly the powers of 2 modulo the polynomial and their inverse, with size and generator base stored; on that object Multiply, Inverse, Log and Exp, folded from source, agree with the checker's own arithmetic - for every pair of elements of GF(16) and GF(64), and for a grid of elements of the larger fields; Inverse and Log refuse 0", 6)
+	fd, p := c.funcDeclOf("common/reedsolomon", "NewGenericGF")
+	if fd == nil {
+		r.AnchorLost("S-GFWHOLE", "common/reedsolomon.NewGenericGF", "constructor not found")
+		return
+	}
+	method := func(name string) (*ast.FuncDecl, *packages.Package) {
+		return c.funcDeclOf("common/reedsolomon", "GenericGF."+name)
+	}
+	for _, f := range []struct {
+		prim, size, base int
+		name             string
+	}{{0x1069, 4096, 1, "GF(4096)/0x1069"}, {0x409, 1024, 1, "GF(1024)/0x409"}, {0x43, 64, 1, "GF(64)/0x43"}, {0x13, 16, 1, "GF(16)/0x13"}, {0x11D, 256, 0, "GF(256)/0x11D"}, {0x12D, 256, 1, "GF(256)/0x12D"}} {
+		key := "common/reedsolomon.NewGenericGF " + f.name
+		r.Analysed(key)
+		ref := newRefGF(f.prim, f.size, f.base)
+		h := &rpf{unroll: 100000, maxSteps: 5000000}
+		h.callHook = errCtorHook
+		res, err := c.rpfCall(fd, p, []*Val{vint(int64(f.prim)), vint(int64(f.size)), vint(int64(f.base))}, h)
+		bad := ""
+		var obj *Val
+		switch {
+		case err != nil:
+			bad = "?" + err.Error()
+		case len(res) != 1 || res[0].K != VStruct:
+			bad = "?the constructor does not fold to an object"
+		default:
+			obj = res[0]
+			exp, ok1 := listInts(obj.Fields["expTable"])
+			lg, ok2 := listInts(obj.Fields["logTable"])
+			switch {
+			case !ok1 || !ok2 || len(exp) != f.size || len(lg) != f.size:
+				bad = fmt.Sprintf("?expTable / logTable are not tables of %d constants", f.size)
+			case obj.Fields["size"] == nil || !obj.Fields["size"].isInt() || obj.Fields["size"].I != int64(f.size) || obj.Fields["generatorBase"] == nil || obj.Fields["generatorBase"].I != int64(f.base):
+				bad = "size / generator base are not stored in the object"
+			default:
+				for i := 0; i < f.size-1 && bad == ""; i++ {
+					if int(exp[i]) != ref.exp[i] {
+						bad = fmt.Sprintf("expTable[%d] = %d, 2^%d modulo %#x is %d", i, exp[i], i, f.prim, ref.exp[i])
+					}
+				}
+				for v := 1; v < f.size && bad == ""; v++ {
+					if int(lg[v]) != ref.log[v] {
+						bad = fmt.Sprintf("logTable[%d] = %d, expected %d", v, lg[v], ref.log[v])
+					}
+				}
+			}
+		}
+		if bad == "" {
+			// the operations on the folded object
+			var elems []int
+			if f.size <= 64 {
+				for a := 0; a < f.size; a++ {
+					elems = append(elems, a)
+				}
+			} else {
+				elems = []int{0, 1, 2, 3, 7, f.size / 2, f.size/2 + 1, f.size - 2, f.size - 1, 29, 113}
+			}
+			call := func(name string, args ...*Val) ([]*Val, error) {
+				mfd, mp := method(name)
+				if mfd == nil {
+					return nil, fmt.Errorf("GenericGF.%s not found", name)
+				}
+				hh := &rpf{unroll: 1000, env: map[types.Object]*Val{recvObj(mp, mfd): obj}}
+				hh.callHook = errCtorHook
+				return c.rpfCall(mfd, mp, args, hh)
+			}
+			for _, a := range elems {
+				if bad != "" {
+					break
+				}
+				for _, b := range elems {
+					res, err := call("Multiply", vint(int64(a)), vint(int64(b)))
+					if err != nil || len(res) != 1 || !res[0].isInt() {
+						bad = fmt.Sprintf("?Multiply(%d, %d): %v", a, b, err)
+						break
+					}
+					if int(res[0].I) != ref.mul(a, b) {
+						bad = fmt.Sprintf("Multiply(%d, %d) = %d, the product in %s is %d", a, b, res[0].I, f.name, ref.mul(a, b))
+						break
+					}
+				}
+				for _, op := range []string{"Inverse", "Log"} {
+					res, err := call(op, vint(int64(a)))
+					if err != nil || len(res) != 2 {
+						bad = fmt.Sprintf("?%s(%d): %v", op, a, err)
+						break
+					}
+					if a == 0 {
+						if res[1].K == VNil {
+							bad = op + "(0) does not report an error"
+						}
+						continue
+					}
+					want := ref.log[a]
+					if op == "Inverse" {
+						want = ref.exp[(f.size-1-ref.log[a])%(f.size-1)]
+					}
+					if res[1].K != VNil || !res[0].isInt() || int(res[0].I) != want {
+						bad = fmt.Sprintf("%s(%d) = %v, expected %d", op, a, valString(res[0]), want)
+					}
+				}
+				if a < f.size-1 && bad == "" {
+					if res, err := call("Exp", vint(int64(a))); err != nil || len(res) != 1 || !res[0].isInt() || int(res[0].I) != ref.exp[a] {
+						bad = fmt.Sprintf("Exp(%d) is not 2^%d", a, a)
+					}
+				}
+			}
+		}
+		reportFold(r, c, "S-GFWHOLE", key, fd.Pos(), bad)
+	}
+	r.DecidedBy("T-GFBUILD", "S-GFWHOLE", "the tables the constructor builds, compared element by element for all six fields")
+	r.DecidedBy("T-GFOPS", "S-GFWHOLE", "the field operations folded on the constructed object")
+}
